@@ -146,6 +146,11 @@ def normalize_slice(idx, dim):
     """
     if isinstance(idx, slice):
         if math.isnan(dim):
+            # The length is unknown, so only spelled-out defaults can be
+            # canonicalised: ``x[0:]``, ``x[::1]`` and the ``slice(0, None, None)``
+            # that slice fusion produces all select the whole axis.
+            if idx.start in (None, 0) and idx.stop is None and idx.step in (None, 1):
+                return slice(None, None, None)
             return idx
         start, stop, step = idx.indices(dim)
         if step > 0:
